@@ -17,6 +17,9 @@ mod holders;
 mod compose;
 #[cfg(feature = "native")]
 mod isolate;
+#[cfg(not(feature = "native"))]
+#[path = "isolate_inproc.rs"]
+mod isolate;
 mod runner;
 mod util;
 
